@@ -16,6 +16,16 @@ fn main() {
     println!("wrote /tmp/dump.sam for {}", p.name);
     return;
   }
+  if std::env::var("COUNT").is_ok() {
+    let mut counts: BTreeMap<&str, usize> = BTreeMap::new();
+    for p in &progs {
+      *counts.entry(p.family).or_default() += 1;
+    }
+    for (f, n) in counts {
+      println!("{n:>8} {f}");
+    }
+    return;
+  }
   println!("{} programs", progs.len());
   let t = std::time::Instant::now();
   let evals = evalprog::evaluate_all(progs, refsem::Config::default(), "famcheck").unwrap();
